@@ -12,6 +12,7 @@ From PV Require Export Model.JobGroupX.
 From PV Require Export Model.TransformX.
 From PV Require Export Model.DecompX.
 From PV Require Export Model.SourceX.
+From PV Require Export Model.LossX.
 
 Definition dispatch (f : Z) (x : sx) : sx :=
   match f with
@@ -20,6 +21,7 @@ Definition dispatch (f : Z) (x : sx) : sx :=
   | 20 => x_amps x | 21 => x_amp1 x | 22 => x_dist x | 23 => x_masked x | 24 => x_submatrix x
   | 40 => x_condition x
   | 30 => x_svd_dist x
+  | 70 => x_lossy x | 71 => x_thinned x
   (* 1700 = the code as it is now (both C17 repairs are in /repo: fix commits 3528201e, a6e53956);
      1703 = the code before the repairs (kept for the _refuted theorems and their witnesses) *)
   | 1700 => RemoteJob.x_rj_patch x | 1701 => RemoteJob.x_rj_patch x | 1702 => RemoteJob.x_rj_spec x | 1703 => RemoteJob.x_rj_code x
